@@ -5,11 +5,108 @@ import json, os
 VERIF = os.path.dirname(os.path.dirname(os.path.abspath(__file__)))
 props = [json.loads(l) for l in open(os.path.join(VERIF, "properties.jsonl"))]
 
-TRUST = ("Trusted: Verus/Z3/rustc; vstd's std specifications; the assumed std contracts in specs/std.rs "
-         "(each listed in evidence.coverage.trusted_base); rewrite rules R1-R14 of the extractor; "
-         "A-SIZE (DigitString counters < 2^61); allocation never fails. ")
+TRUST = ("Trusted, not proved: Verus/Z3/rustc; vstd's std specifications; the assumed std/str/f64 contracts in specs/std.rs and specs/tr.vspec "
+         "and every hoisted closure chain (all enumerated per run in evidence.coverage.trusted_base); the extractor's rewrite rules R1-R25 "
+         "(each application logged in evidence.coverage.units[].rewrite_rules_applied); A-SIZE (DigitString counters < 2^61); allocation never fails. ")
+MECH = ("The end-to-end sentence of the property is a statement about two runs or about whole phrases; what is proved is the set of single-call "
+        "contracts that pin it down (each clause tagged with this property id in specs/*.vspec). ")
+LANGS7 = "all seven languages (en, fr, es, pt, it, de, nl)"
+TECH = "Verus function contracts on the real code, extracted mechanically from /repo on every run"
 
 CLAIMED = {
+    "C01": {
+        "text": "Word-level half of the cardinal round trip, for " + LANGS7 + ": (L3a) the real `apply` of each language is proved equal, arm by arm, to a "
+                "frozen model table (word -> guard -> DigitString operation); (L3b) for every cardinal word of an independently written grammar table the model "
+                "performs exactly the place-value instruction the grammar prescribes (digits, guard, blocking flags), and a comma is never a number word; the "
+                "DigitString operations themselves have strongest-postcondition contracts (C12). For de/it/nl the splitter's pattern list in Default::default is "
+                "proved equal to the frozen list and every table word is proved not to be split. NOT proved: the composition lemma that the words of spell(n) "
+                "executed in sequence yield decimal(n) for all n < 10^12 (no spelling driver was built), and the behaviour of glued compounds of de/it/nl beyond "
+                "'the group result is placed as a whole' (the daachorse automaton is assumed).",
+        "note": TRUST + "Known finding (German 'eine Million') listed in known_findings.txt. WordSplitter (daachorse) has an assumed contract: is_splittable == "
+                "'some pattern occurs and the word is not itself a pattern'; Italian/German/Dutch values are assumed to come from Default::default (private field).",
+        "design_ref": "DESIGN.md §12.3 C01",
+    },
+    "C02": {
+        "text": "Tokenizer is lossless (every token is exactly the source characters between two consecutive positions, nothing skipped, proved on "
+                "Tokenize::next/match_word/match_sep with byte-offset/char-index bookkeeping); BasicToken::new keeps the text verbatim; the annotation pass of "
+                "every language may only flip `nan` hints (trait contract: texts unchanged); occurrences handed to `replace` are in bounds, strictly increasing "
+                "and disjoint (tracker invariant). NOT proved: the splice postcondition of NumTracker::replace / replace_numbers_in_text itself (Vec::drain + "
+                "insert + join are hoisted with assumed contracts and the final 'output = input with exactly the spans replaced' lemma was not written).",
+        "note": TRUST + MECH + "A-PEEK/A-SLICE: Peekable<CharIndices> and str slicing are specified by assumed contracts in specs/tok.vspec.",
+        "design_ref": "DESIGN.md §12.3 C02",
+    },
+    "C03": {
+        "text": "Every extracted function body of every unit (DigitString, trait default exec_group, scanner, tokenizer, facade, seven interpreters) is proved "
+                "panic-free under its contract for all inputs: indices and slices in range, no arithmetic overflow, every unwrap()/parse().unwrap() justified by a "
+                "precondition that each call site proves (e.g. format_and_value requires a non-empty digit string; exec_group on an empty group returns Err). "
+                "Partial correctness: termination is proved only where Verus accepts a decreases clause.",
+        "note": TRUST + "Termination of iterator-driven loops and of the apply<->exec_group recursion is not proved (exec_allows_no_decreases_clause). Functions left "
+                "external (listed in evidence) are not covered: WordSplitter (daachorse), phf set lookups, closure chains hoisted by R7/R12, Italian/German/Dutch::new.",
+        "design_ref": "DESIGN.md §12.3 C03",
+    },
+    "C04": {
+        "text": "As C01 for the ordinal vocabulary of " + LANGS7 + ": every ordinal word form of the grammar table (all gender/number/case inflections) is proved to "
+                "be lemmatized to its table entry, to place the digits of its cardinal under the grammar's guard, to set exactly the marker the grammar prescribes "
+                "(get_morph_marker contract) and to freeze the number; format_and_value is proved to render digits followed by the marker. NOT proved: ranks that "
+                "need several words or a glued compound (composition, see C01).",
+        "note": TRUST + "Found and fixed through these obligations: en 'sixtieth', es 'cuadringentésimo', es 'tercer', fr 'huitantième', it 'sedicesimo', "
+                "'settantunesimo', 'centunesimo' (known_findings.txt).",
+        "design_ref": "DESIGN.md §12.3 C04",
+    },
+    "C05": {
+        "text": "WordToDigitParser::push / string_and_value contracts: a decimal-separator word is accepted only after a non-ordinal number, only once, and is reported "
+                "as Incomplete; integer and fractional parts live in two builders; the rendered text is int + mark + frac through the language's "
+                "format_decimal_and_value (proved per language: ',' or '.', every digit and leading zero of both parts kept); DigitString::push appends verbatim; "
+                "German apply_decimal is proved to be digit dictation. NOT proved: whole-phrase decimal round trip (composition).",
+        "note": TRUST + MECH + "f64 values are defined as parse_f64 of the rendered digits (assumed).",
+        "design_ref": "DESIGN.md §12.3 C05",
+    },
+    "C06": {
+        "text": "Scanner invariant proved for all token streams, generically in the language, token type and iterator: occurrences have non-empty spans inside the "
+                "stream, strictly increasing and pairwise disjoint (NumTracker invariant + track_numbers/find_numbers postconditions); each occurrence's text, value and "
+                "is_ordinal come from one call of the language's format contract on the parser's builders (digits [+ marker] or int-mark-frac); an ordinal never has a "
+                "decimal part (parser invariant, found and fixed a defect).",
+        "note": TRUST + "Numeric meaning of value: parse_f64 (assumed).",
+        "design_ref": "DESIGN.md §12.3 C06",
+    },
+    "C07": {
+        "text": "Failure atomicity, proved: every DigitString operation and every language's apply/apply_decimal leave the builder's digits, zeros, marker and frozen "
+                "flag unchanged when they return Err; WordToDigitParser::push leaves both builders untouched on a rejected word; the scanner ends the open number "
+                "exactly when push is rejected and starts the next from a fresh parser. NOT proved: the two-run statement 'validator(span) = occurrence' and "
+                "threshold-0 completeness.",
+        "note": TRUST + MECH,
+        "design_ref": "DESIGN.md §12.3 C07",
+    },
+    "C08": {
+        "text": "Per-word guards that keep numbers apart, proved for " + LANGS7 + " against the grammar tables: units refused after 'ten', tens/teens refused over "
+                "occupied positions (DigitString::put/put_digit_at exact acceptance conditions), blocking flags (fr/de/nl unit-before-ten, pt/es restrictions) "
+                "set and cleared exactly as the grammar rows say; zero accepted only on an empty value. NOT proved: the (a,b) in [0,99]^2 pair sweep as a theorem "
+                "(composition).",
+        "note": TRUST + MECH,
+        "design_ref": "DESIGN.md §12.3 C08",
+    },
+    "C09": {
+        "text": "Exact contracts of the lone-number policy for all inputs: FindNumbers::number_end and NumTracker::number_end (three-way split keep / hold / drop as a "
+                "function of value < threshold, ordinal, single digit, contiguity), sequence_breaker, and outside_number (what breaks a sequence: a non-linking word or "
+                "a lone period); is_linking is the vocabulary lookup on the lower-case form. NOT proved: monotonicity across two thresholds (two-run corollary); "
+                "f64 `<` is an assumed total order helper.",
+        "note": TRUST + MECH,
+        "design_ref": "DESIGN.md §12.3 C09",
+    },
+    "C10": {
+        "text": "Reset contracts proved: after every number the parser is fresh; a comma / flagged token always ends the number in progress in every language; French and "
+                "English basic_annotate test each candidate on a scratch builder that is reset between tests (loop invariant; found and fixed a French defect); "
+                "tracker hold/release state is cleared by every sequence breaker. NOT proved: rewrite(A S B) = rewrite(A) S rewrite(B) as a two-run theorem.",
+        "note": TRUST + MECH,
+        "design_ref": "DESIGN.md §12.3 C10",
+    },
+    "C11": {
+        "text": "Canonical-form discipline proved: BasicToken::new stores lower(text); every LangInterpreter method requires is_lower(word) and every call site in "
+                "the scanner, the parser, exec_group and the languages' annotation passes proves it (found and fixed: is_linking was called on the raw text). "
+                "NOT proved: the two-run statement itself; to_lowercase is an assumed spec function.",
+        "note": TRUST + MECH,
+        "design_ref": "DESIGN.md §12.3 C11",
+    },
     "C12": {
         "text": "Every DigitString method of /repo/src/digit_string.rs carries a strongest-postcondition contract over an abstract view "
                 "(digits, leading zeros, frozen, flags, marker) and Verus discharges all of them for all inputs: result is Ok exactly when the "
@@ -17,10 +114,61 @@ CLAIMED = {
                 "put/put_digit_at/fput/shift, to_string is lz zeros followed by the digits and has length len(); bodies are panic-free.",
         "note": TRUST + "all_zeros and two closure chains (is_free, shift) are hoisted with assumed specs (R7). push is specified as documented "
                 "(unconditional append, not refused when frozen). is_range_free keeps the author's precondition start < end.",
-        "technique": "Verus function contracts on extracted real code (strongest postconditions over an abstract view)",
-        "design_ref": "DESIGN.md §5 L1, §6 C12",
+        "design_ref": "DESIGN.md §12.3 C12",
+    },
+    "C13": {
+        "text": "Facade proved against provenance predicates: each of the eight trait methods (and basic_annotate) of `Language`, generated by delegate!, must "
+                "establish for each variant the opaque predicate that only the same-named method of that variant's concrete interpreter establishes, so a swapped, "
+                "missing or defaulted delegation fails; get_interpreter_for is proved to return exactly the matching variant for the seven ISO codes (found and "
+                "fixed: 'pt') and None for every other string.",
+        "note": TRUST + "The seven interpreters are stubs carrying only the trait contract in this unit (their own proofs are the lang_* units).",
+        "design_ref": "DESIGN.md §12.3 C13",
+    },
+    "C14": {
+        "text": "Partial: (a) no interpreter method writes to the process's standard streams: dbg!/print!/eprint! families are rewritten to a helper whose "
+                "precondition is false, so a reachable call is a failed obligation (found and fixed the Dutch dbg!); (b) frame: extracted interpreter code may "
+                "only call functions that have a functional contract, and a field of an interior-mutability / global-state type (Mutex, RefCell, Cell, atomics, "
+                "static mut, thread_local) in an interpreter struct is reported as the frame obligation failing; (c) the splitter patterns are fixed by "
+                "Default::default (de/it/nl). NOT decided here: Send + Sync and freedom from data races under interleavings (no concurrency semantics in "
+                "Verus/Kani; rests on Rust's aliasing rules for &self without interior mutability).",
+        "note": TRUST + "History independence follows from (b) only on paper. WordSplitter's automaton is assumed read-only.",
+        "design_ref": "DESIGN.md §12.3 C14",
+    },
+    "C15": {
+        "text": "Single-run stream contracts proved generically over a prophetic iterator: FindNumbers::new reads nothing; push handles a token flagged "
+                "not_a_number_part by ending the number in progress and never placing it inside an occurrence; a token that declares itself unrelated to its "
+                "predecessor never continues the predecessor's number; a comma is refused by every interpreter and is never a decimal separator. NOT proved: "
+                "iter(stream) = batch(stream) (two-run), and the exact amount of look-ahead of the lazy iterator.",
+        "note": TRUST + MECH,
+        "design_ref": "DESIGN.md §12.3 C15",
+    },
+    "C16": {
+        "text": "DigitString::put accepts '0' exactly on an empty value and counts it in leading_zeroes; to_string prepends exactly that many zeros; len/is_empty "
+                "include them (exact contracts, C12); for " + LANGS7 + " the zero word and every guard that inspects the number so far are proved against grammar "
+                "rows that are stated over values with leading zeros (found and fixed: Italian 'un milione' after a zero). NOT proved: the k-zeros + spell(n) sweep "
+                "as a theorem (composition).",
+        "note": TRUST + MECH,
+        "design_ref": "DESIGN.md §12.3 C16",
+    },
+    "C17": {
+        "text": "Proved: the tokenizer cuts maximal runs (a word token is a maximal run of word characters, a separator token a maximal run of non-alphanumerics), "
+                "so amount of whitespace cannot change the word tokens; the scanner skips tokens made only of (Unicode) whitespace and lone hyphens before looking "
+                "at anything else; outside_number's classification of separators only looks at alphabetic/period content. NOT proved: the two-run statement; "
+                "English basic_annotate's neighbour search still uses an ASCII-only whitespace test (unverified closure, see DESIGN §12.5).",
+        "note": TRUST + MECH + "char predicates (is_whitespace, is_alphanumeric, is_alphabetic) are uninterpreted with assumed inclusions.",
+        "design_ref": "DESIGN.md §12.3 C17",
+    },
+    "C18": {
+        "text": "Proved: the scanner never lets a token flagged `nan` start, continue or sit inside an occurrence, and English 'o' shares the table arm of "
+                "'zero'/'nought' (row lemma). English::basic_annotate is proved memory-safe and text-preserving, and its index list is proved to be exactly the "
+                "non-whitespace tokens in order. NOT proved: the rule 'o is flagged iff neither neighbour is a number word' (the neighbour test runs through a "
+                "hoisted closure and a scratch apply; only its frame is specified).",
+        "note": TRUST + MECH,
+        "design_ref": "DESIGN.md §12.3 C18",
     },
 }
+for _k in CLAIMED:
+    CLAIMED[_k].setdefault("technique", TECH)
 
 PENDING_REASON = "not yet decided by the machinery in /verif (work in progress); no claim is made"
 
